@@ -487,3 +487,51 @@ func CRLFCells() []Cell {
 	)
 	return cells
 }
+
+// ---- fifth round: a lone carriage return inside Go sections
+
+// GoCRCells: Go code between templates (and in the header, in expressions)
+// with a lone CR — in an interpreted string or a rune literal it is an
+// ordinary character of the value; Go discards it in raw strings and
+// comments. Each in an LF file and in a CRLF file.
+func GoCRCells() []Cell {
+	var cells []Cell
+	t := "templ t(s string) {\n\t<div>{ s }</div>\n}\n"
+	add := func(name, src string) {
+		cells = append(cells, Cell{Name: "cell=gocr-" + name, Src: src, NoBase: true})
+		// CRLF file: every LF becomes CRLF, the lone CR stays what it is
+		cells = append(cells, Cell{Name: "cell=gocr-" + name + "-crlf-file", Src: strings.ReplaceAll(src, "\n", "\r\n"), NoBase: true})
+	}
+	add("const-string", "package main\n\nconst msg = \"loading...\rdone\"\n\n"+t)
+	add("const-string-start", "package main\n\nconst msg = \"\rdone\"\n\n"+t)
+	add("const-string-end", "package main\n\nconst msg = \"loading\r\"\n\n"+t)
+	add("const-string-two", "package main\n\nconst msg = \"a\r\rb\"\n\n"+t)
+	add("var-string", "package main\n\nvar msg = \"a\rb\"\n\n"+t)
+	add("var-group", "package main\n\nvar (\n\ta = \"x\ry\"\n\tb = 1\n)\n\n"+t)
+	add("func-return-string", "package main\n\nfunc msg() string {\n\treturn \"a\rb\"\n}\n\n"+t)
+	add("func-call-arg", "package main\n\nimport \"strings\"\n\nfunc msg() string {\n\treturn strings.ToUpper(\"a\rb\")\n}\n\n"+t)
+	add("rune", "package main\n\nconst cr = '\r'\n\n"+t)
+	add("struct-tag", "package main\n\ntype st struct {\n\tA string \"k:\\\"a\rb\\\"\"\n}\n\n"+t)
+	add("rawstring", "package main\n\nconst msg = `a\rb`\n\n"+t)
+	add("rawstring-multi", "package main\n\nconst msg = `a\r\nb\rc\n`\n\n"+t)
+	add("line-comment", "package main\n\n// a\rb\nconst k = 1\n\n"+t)
+	add("line-comment-end", "package main\n\nconst k = 1 // a\r\n\n"+t)
+	add("block-comment", "package main\n\n/* a\rb */\nconst k = 1\n\n"+t)
+	add("between-tokens", "package main\n\nconst k =\r1\n\n"+t)
+	add("after-decl", "package main\n\nconst k = 1\r\nconst l = 2\n\n"+t)
+	add("string-and-comment", "package main\n\nconst msg = \"a\rb\" // c\rd\n\n"+t)
+	add("after-templ", "package main\n\n"+t+"\nconst msg = \"a\rb\"\n")
+	add("between-templs", "package main\n\n"+t+"\nconst msg = \"a\rb\"\n\ntempl u() {\n\t<p>x</p>\n}\n")
+	add("header-comment", "// a\rb\npackage main\n\n"+t)
+	add("import-path-alias-comment", "package main\n\nimport \"fmt\" // x\ry\n\nvar _ = fmt.Sprint\n\n"+t)
+	// expressions inside templates (not Go sections, same question)
+	add("expr-string", "package main\n\ntempl t() {\n\t<div>{ \"a\rb\" }</div>\n}\n")
+	add("attr-expr-string", "package main\n\ntempl t() {\n\t<div title={ \"a\rb\" }>x</div>\n}\n")
+	add("call-arg-string", "package main\n\ntempl t() {\n\t@u(\"a\rb\")\n}\n\ntempl u(s string) {\n\t<p>{ s }</p>\n}\n")
+	add("gocode-string", "package main\n\ntempl t() {\n\t{{ v := \"a\rb\" }}\n\t<p>{ v }</p>\n}\n")
+	add("if-cond-string", "package main\n\ntempl t(s string) {\n\tif s == \"a\rb\" {\n\t\t<p>x</p>\n\t}\n}\n")
+	add("script-template-string", "package main\n\nscript sc() {\n\tvar a = \"x\ry\";\n}\n\n"+t)
+	add("css-value", "package main\n\ncss cl() {\n\tcontent: \"a\rb\";\n}\n\n"+t)
+	add("const-attr", "package main\n\ntempl t() {\n\t<div title=\"a\rb\">x</div>\n}\n")
+	return cells
+}
